@@ -28,6 +28,9 @@ CLAIMED = {
  "C02": ("polynomial value congruence on SSA + must-pass-through (static)",
          "Structural preconditions of sound/complete triggering across block edges decided for every path: the two copies of the record length are congruent after every store that can change either; the history kept on trim is a*nsamp+b (a>=2,b>=0) of that copy; edge/level scan window = [max(LastTrigger-firstFrame+NSamples, NPresamples), len+NPresamples-NSamples), auto scan bounds, one-record dead time after an edge trigger; LastTrigger = last record's frame whenever records exist; reconfiguration resets the edge-multi state; the start path initialises the hold-off reference far in the past. Not decided: trigger criteria on sample values, non-overlap, auto-trigger gap bound.",
          "function and field names of the trigger passes are name-keyed anchors; scan-window formulas are compared as polynomials, so algebraically equivalent rewrites pass while a different window is reported", "DESIGN.md §2 C02"),
+ "C13": ("dominating-comparison facts, path rule, control dependence and flow-insensitive dependence slicing on SSA (static)",
+         "Structural necessary conditions only (the numeric identities are not decided): projectors/basis installed only after the three shape equalities hold; record length never changed while projectors validated for another length stay installed; sample->float64 conversions under the matching arm of the signed flag; each analysis result depends on the record's own data/pre-trigger count (never on the per-channel length setting), model coefficients on the projector matrix, residual on the basis matrix; slices stored into a record are fresh per record.",
+         "dependence is over-approximated through memory of locals, make() sites and struct-field storage; field names of DataRecord are name-keyed anchors", "DESIGN.md §2 C13"),
 }
 
 NOT_BUILT_REASON = "static rule designed in DESIGN.md but not built yet; not claimed until it is"
